@@ -7,11 +7,20 @@ MAP = {"01": ["C02", "C03", "C04"], "02": ["C05", "C01"], "03": ["C06", "C07"], 
        "05": ["C13", "C14", "C12"], "06": ["C15"], "07": ["C16", "C17", "C18"], "08": ["C19"], "09": ["C20"],
        "10": ["C09", "C10", "C01"], "11": ["C02", "C03", "C04", "C12", "C20", "C01"], "12": ["C17", "C01"],
        "13": ["C01", "C11", "C06", "C07", "C09"], "14": ["C15", "C20"]}
+MAP2 = {"01": ["C01", "C05", "C06", "C07", "C08", "C09", "C10", "C11", "C19", "C20"], "02": ["C12", "C13", "C14", "C15"],
+        "03": ["C01", "C02", "C03", "C04", "C05", "C12", "C20"], "04": ["C13", "C14", "C15", "C20"], "05": ["C14", "C15"],
+        "06": ["C01", "C09", "C11", "C20"], "07": ["C01", "C09", "C10", "C11", "C19", "C20"], "08": ["C20"], "09": ["C05", "C06", "C07"],
+        "10": ["C13", "C16", "C18"], "11": ["C06", "C07", "C09", "C12", "C13", "C14", "C15"],
+        "12": ["C08", "C09", "C10", "C11", "C13", "C14", "C20"]}
 os.chdir("/verif")
-want = sys.argv[1:] or sorted(MAP)
-res_path = "benign/RESULTS.json"
+base = "benign"
+args = sys.argv[1:]
+if args and args[0] == "--round2":
+    base, MAP, args = "benign2", MAP2, args[1:]
+want = args or sorted(MAP)
+res_path = base + "/RESULTS.json"
 for nn in want:
-    p = subprocess.run(["python3", "tools/seedtest.py", f"benign/{nn}.diff"] + MAP[nn], capture_output=True, text=True)
+    p = subprocess.run(["python3", "tools/seedtest.py", f"{base}/{nn}.diff"] + MAP[nn], capture_output=True, text=True)
     r, cur = {}, None
     for line in (p.stdout + p.stderr).splitlines():
         m = re.match(r"== (C\d\d): exit (\d+)", line)
